@@ -75,10 +75,13 @@ def run(ctx):
     for p in mcs:
         jobs.append(dict(module="Fuse", cfg_text=H.NODE_MC % p, coverage=True, workers=4 if thorough else 2,
                          label="mc recovery policy=%(policy)s W=%(w)d Min=%(min)d cool=%(cool)d" % p))
-    hmcs = [H.hc_params("hard", "C27", maxtime=108), H.hc_params("gradual", "C27", maxtime=108)]
+    # measured: hard/108: 2.2e4 distinct, 5.6e5 generated; gradual/104 (down-after 4, level 3): 3.8e4 / 9.3e5;
+    # gradual/105 (level 4): 3.8e5 / 9.3e6; hard/112: 1.6e5 / 6.8e6
+    hmcs = [H.hc_params("hard", "C27", maxtime=108), H.hc_params("gradual", "C27", maxtime=104, downafter=4, maxlevel=3)]
     if thorough:
-        hmcs = [H.hc_params("hard", "C27", maxtime=112), H.hc_params("gradual", "C27", maxtime=112),
-                H.hc_params("hard", "C27", maxtime=110, downafter=4, sbm=0), H.hc_params("gradual", "C27", maxtime=110, hasmaster="FALSE")]
+        hmcs = [H.hc_params("hard", "C27", maxtime=112), H.hc_params("gradual", "C27", maxtime=105, downafter=4),
+                H.hc_params("hard", "C27", maxtime=110, downafter=4, sbm=0),
+                H.hc_params("gradual", "C27", maxtime=104, downafter=4, maxlevel=3, hasmaster="FALSE")]
     for p in hmcs:
         jobs.append(dict(module="HealthCheck", cfg_text=H.HC_MC % p, coverage=True, workers=4 if thorough else 2,
                          label="mc rounds+breaker policy=%(policy)s downafter=%(downafter)d hasmaster=%(hasmaster)s" % p))
